@@ -1,9 +1,14 @@
 import sys, time, json
 sys.path.insert(0, '/verif')
 from pyvc.driver import run_functions
-from contracts.targets import MANAGER_ALL
+from contracts import targets
+keys = []
+for nm in sys.argv[1].split(','):
+    for k in getattr(targets, nm):
+        if k not in keys: keys.append(k)
+sc = targets.CLIENT_SIDECARS if 'CLIENT' in sys.argv[1] else None
 t=time.time()
-res = run_functions(MANAGER_ALL, log=print, do_refute=False)
+res = run_functions(keys, sidecars=sc, log=None, do_refute=False, jobs=int(__import__('os').environ.get('JOBS','16')))
 tot=dis=0
 for r in res:
     obs=r['obligations']; tot+=len(obs); d=sum(o['status']=='discharged' for o in obs); dis+=d
